@@ -39,4 +39,105 @@ theorem pymin_eq_min (a b : K) : pymin a b = min a b := by
   · rename_i h; exact (min_eq_right h.le).symm
   · rename_i h; exact (min_eq_left (not_lt.mp h)).symm
 
+/-! ## the `van_leer` iteration -/
+
+/-- mirror image of a `van_leer` loop state: the two wave impedances change places -/
+def vlSwap (s : van_leer_loopSt K) : van_leer_loopSt K :=
+  ⟨s.converged, s.iteration, s.pstar, s.wr, s.wl⟩
+
+/-- the Newton update of `van_leer` before the `smallp` floor, as a formula -/
+def vlNewP (Vl Vr g2 pl pr ul ur p wl wr : K) : K :=
+  p + ((ur + (p - pr) / wr) - (ul - (p - pl) / wl)) *
+      (((-(4 * Vl * wl * wl)) * wl / (4 * Vl * wl * wl - g2 * (p - pl))) *
+       ((4 * Vr * wr * wr) * wr / (4 * Vr * wr * wr - g2 * (p - pr)))) /
+      (((4 * Vr * wr * wr) * wr / (4 * Vr * wr * wr - g2 * (p - pr))) -
+       ((-(4 * Vl * wl * wl)) * wl / (4 * Vl * wl * wl - g2 * (p - pl))))
+
+theorem vlNewP_mirror (Vl Vr g2 pl pr ul ur p wl wr : K) :
+    vlNewP Vr Vl g2 pr pl (-ur) (-ul) p wr wl = vlNewP Vl Vr g2 pl pr ul ur p wl wr := by
+  unfold vlNewP; ring
+
+theorem vlNewP_shift (Vl Vr g2 pl pr ul ur p wl wr c : K) :
+    vlNewP Vl Vr g2 pl pr (ul + c) (ur + c) p wl wr = vlNewP Vl Vr g2 pl pr ul ur p wl wr := by
+  unfold vlNewP; ring
+
+theorem van_leer_body_eq (o : Ops K) (Vl Vr cl cr g1 g2 : K) (niter : Int)
+    (pl pr smallp tol ul ur : K) (s : van_leer_loopSt K) :
+    van_leer_loop_body o Vl Vr cl cr g1 g2 niter pl pr smallp tol ul ur s =
+      (let wl := cl * o.sqrt (1 + g1 * (s.pstar - pl) / pl)
+       let wr := cr * o.sqrt (1 + g1 * (s.pstar - pr) / pr)
+       let p' := pymax smallp (vlNewP Vl Vr g2 pl pr ul ur s.pstar wl wr)
+       let cv := decide (o.abs (p' - s.pstar) / p' < tol)
+       if cv = true then (true, ⟨cv, s.iteration, p', wl, wr⟩)
+       else (false, ⟨cv, s.iteration + 1, p', wl, wr⟩)) := by
+  simp only [van_leer_loop_body, vlNewP, Nat.cast_ofNat, Nat.cast_one]
+  rfl
+
+theorem van_leer_body_mirror (o : Ops K) (Vl Vr cl cr g1 g2 : K) (niter : Int)
+    (pl pr smallp tol ul ur : K) (s : van_leer_loopSt K) :
+    van_leer_loop_body o Vr Vl cr cl g1 g2 niter pr pl smallp tol (-ur) (-ul) (vlSwap s)
+      = ((van_leer_loop_body o Vl Vr cl cr g1 g2 niter pl pr smallp tol ul ur s).1,
+         vlSwap (van_leer_loop_body o Vl Vr cl cr g1 g2 niter pl pr smallp tol ul ur s).2) := by
+  rw [van_leer_body_eq, van_leer_body_eq]
+  simp only [vlSwap, vlNewP_mirror]
+  split <;> rfl
+
+theorem van_leer_loop_mirror (o : Ops K) (Vl Vr cl cr g1 g2 : K) (niter : Int)
+    (pl pr smallp tol ul ur : K) (fuel : Nat) (s : van_leer_loopSt K) :
+    van_leer_loop o Vr Vl cr cl g1 g2 niter pr pl smallp tol (-ur) (-ul) fuel (vlSwap s)
+      = vlSwap (van_leer_loop o Vl Vr cl cr g1 g2 niter pl pr smallp tol ul ur fuel s) := by
+  induction fuel generalizing s with
+  | zero => rfl
+  | succ n ih =>
+    simp only [van_leer_loop]
+    have hc : van_leer_loop_cond niter (vlSwap s) ↔ van_leer_loop_cond niter s := Iff.rfl
+    by_cases h : van_leer_loop_cond niter s
+    · rw [if_pos h, if_pos (hc.mpr h), van_leer_body_mirror]
+      by_cases hb : (van_leer_loop_body o Vl Vr cl cr g1 g2 niter pl pr smallp tol ul ur s).1 = true
+      · simp only [hb, if_true]
+      · simp only [hb, if_false]; exact ih _
+    · rw [if_neg h, if_neg (fun h' => h (hc.mp h'))]
+
+theorem van_leer_body_shift (o : Ops K) (Vl Vr cl cr g1 g2 : K) (niter : Int)
+    (pl pr smallp tol ul ur c : K) (s : van_leer_loopSt K) :
+    van_leer_loop_body o Vl Vr cl cr g1 g2 niter pl pr smallp tol (ul + c) (ur + c) s
+      = van_leer_loop_body o Vl Vr cl cr g1 g2 niter pl pr smallp tol ul ur s := by
+  rw [van_leer_body_eq, van_leer_body_eq]
+  simp only [vlNewP_shift]
+
+theorem van_leer_loop_shift (o : Ops K) (Vl Vr cl cr g1 g2 : K) (niter : Int)
+    (pl pr smallp tol ul ur c : K) (fuel : Nat) (s : van_leer_loopSt K) :
+    van_leer_loop o Vl Vr cl cr g1 g2 niter pl pr smallp tol (ul + c) (ur + c) fuel s
+      = van_leer_loop o Vl Vr cl cr g1 g2 niter pl pr smallp tol ul ur fuel s := by
+  induction fuel generalizing s with
+  | zero => rfl
+  | succ n ih =>
+    simp only [van_leer_loop, van_leer_body_shift, ih]
+
+/-- what `van_leer` returns from the final loop state -/
+def vlFinish (ul ur pl pr : K) (S : van_leer_loopSt K) : Res K :=
+  if S.converged = true then
+    ⟨0, S.pstar, 1 / 2 * ((ul - (S.pstar - pl) / S.wl) + (ur + (S.pstar - pr) / S.wr))⟩
+  else
+    ⟨1, S.pstar, 1 / 2 * ((ul - (S.pstar - pl) / S.wl) + (ur + (S.pstar - pr) / S.wr))⟩
+
+theorem vlFinish_mirror (ul ur pl pr : K) (S : van_leer_loopSt K) :
+    (vlFinish (-ur) (-ul) pr pl (vlSwap S)).code = (vlFinish ul ur pl pr S).code ∧
+    ((vlFinish ul ur pl pr S).code = 0 →
+      (vlFinish (-ur) (-ul) pr pl (vlSwap S)).r0 = (vlFinish ul ur pl pr S).r0 ∧
+      (vlFinish (-ur) (-ul) pr pl (vlSwap S)).r1 = -(vlFinish ul ur pl pr S).r1) := by
+  unfold vlFinish vlSwap
+  cases S.converged
+  · simp
+  · simp; ring
+
+theorem vlFinish_shift (ul ur pl pr c : K) (S : van_leer_loopSt K) :
+    (vlFinish (ul + c) (ur + c) pl pr S).code = (vlFinish ul ur pl pr S).code ∧
+    ((vlFinish ul ur pl pr S).code = 0 →
+      (vlFinish (ul + c) (ur + c) pl pr S).r0 = (vlFinish ul ur pl pr S).r0 ∧
+      (vlFinish (ul + c) (ur + c) pl pr S).r1 = (vlFinish ul ur pl pr S).r1 + c) := by
+  unfold vlFinish
+  cases S.converged
+  · simp
+  · simp; ring
 end PysphVerif.Riemann
